@@ -92,6 +92,26 @@ pub fn run(s: &mut Session, ctx: &Ctx) {
             let sd = (n as f64 * p * (1.0 - p)).sqrt();
             (count as f64 - mean).abs() <= 12.0 * sd + 1.0
         };
+        if kind == "lch_hue" {
+            // LCh hue in twelve 30-degree sectors over a long uniform stream: the circle L=70, C=35 has only
+            // about 660 distinct 8-bit colours, which by itself moves a 30-degree sector by up to 5 %, so the
+            // bound is 12 sigma plus 6 % of the expectation; a direction drawn 28 % more often still shows
+            let nl: u64 = if ctx.thorough { 2_000_000 } else { 300_000 };
+            let log = Rc::new(RefCell::new(Vec::<u64>::new()));
+            let mut rng = LogRng { kind: 0, state: Rng::new(seedgen.next()), counter: 0, log: log.clone() };
+            let mut sect = [0u64; 12];
+            for _ in 0..nl {
+                log.borrow_mut().clear();
+                let c = generate(kind, &mut rng);
+                sect[((c.to_lch().h / 30.0) as usize).min(11)] += 1;
+            }
+            s.count_case("", true);
+            let mean = nl as f64 / 12.0;
+            let sd = (nl as f64 * (1.0 / 12.0) * (11.0 / 12.0)).sqrt();
+            for (i, c) in sect.iter().enumerate() {
+                s.check((*c as f64 - mean).abs() <= 12.0 * sd + 0.06 * mean, "lch-hue-sectors-equally-frequent", "strategies::UniformHueLCh", || format!("LCh hue in [{}, {}) over {} uniform draws", 30 * i, 30 * i + 30, nl), || format!("{} hits, expected about {}", c, mean as u64));
+            }
+        }
         if kind == "vivid" {
             // fine histogram (one-degree sectors) over a long uniform stream, implementation only:
             // a hue direction that is produced twice as often as the others shows here
